@@ -72,6 +72,10 @@ def EXTRA_SIZE_JOBS(rng, tier):
 
 def cases(tier, rng):
     L = ["acc " + j for j in size_jobs(rng, tier)]
+    # sizes decided after bit stuffing (Aztec), wrapped lengths, low-byte runes ... (lib/gaps.py)
+    import gaps
+    L += ["acc az " + a for a in gaps.aztec_stuffing(rng, tier)]
+    L += ["acc " + g for g in gaps.acc_cases(rng, "quick") if not g.startswith("az ") and len(g) < 3000]
     for j in J.jobs(rng, 200 if tier == "quick" else 5000, scale_frac=0.0):
         if j.split()[1] in c10.ENCODERS:
             L.append("acc " + j[4:])
